@@ -1,0 +1,72 @@
+// This file is Copyright its original authors, visible in version control
+// history.
+//
+// This file is licensed under the Apache License, Version 2.0 <LICENSE-APACHE
+// or http://www.apache.org/licenses/LICENSE-2.0> or the MIT license
+// <LICENSE-MIT or http://opensource.org/licenses/MIT>, at your option.
+// You may not use this file except in accordance with one or both of these
+// licenses.
+
+//! Read-only entry points for external runtime-verification harnesses. Only built with the
+//! off-by-default `_verif` feature; nothing here changes behaviour.
+
+use crate::ln::msgs::DecodeError;
+use crate::ln::wire;
+use crate::util::ser::{LengthLimitedRead, Writeable, Writer};
+
+
+/// The outcome of decoding one peer message (2-byte type followed by its payload).
+#[derive(Clone, Debug, PartialEq, Eq)]
+pub struct VerifDecodedMessage {
+	/// The message type read from the first two bytes.
+	pub type_id: u16,
+	/// Whether the type is one this library knows how to decode.
+	pub known: bool,
+	/// The message written back out (type and payload); empty for unknown types.
+	pub reencoded: Vec<u8>,
+	/// `Debug` rendering of the decoded message.
+	pub debug: String,
+	/// Number of input bytes the decoder did not consume.
+	pub bytes_left: usize,
+}
+
+#[derive(Debug)]
+enum NoCustomMessage {}
+impl wire::Type for NoCustomMessage {
+	fn type_id(&self) -> u16 {
+		match *self {}
+	}
+}
+impl Writeable for NoCustomMessage {
+	fn write<W: Writer>(&self, _: &mut W) -> Result<(), crate::io::Error> {
+		match *self {}
+	}
+}
+struct NoCustomReader;
+impl wire::CustomMessageReader for NoCustomReader {
+	type CustomMessage = NoCustomMessage;
+	fn read<R: LengthLimitedRead>(
+		&self, _message_type: u16, _buffer: &mut R,
+	) -> Result<Option<NoCustomMessage>, DecodeError> {
+		Ok(None)
+	}
+}
+
+/// Decodes `bytes` with the type dispatch used for messages received from peers.
+pub fn wire_decode(bytes: &[u8]) -> Result<VerifDecodedMessage, (DecodeError, Option<u16>)> {
+	let mut reader = bytes;
+	let message = wire::read(&mut reader, NoCustomReader)?;
+	let bytes_left = reader.len();
+	let debug = format!("{:?}", message);
+	Ok(match message {
+		wire::Message::Unknown(type_id) => {
+			VerifDecodedMessage { type_id, known: false, reencoded: Vec::new(), debug, bytes_left }
+		},
+		message => {
+			let type_id = wire::Type::type_id(&message);
+			let mut reencoded = type_id.encode();
+			reencoded.extend_from_slice(&message.encode());
+			VerifDecodedMessage { type_id, known: true, reencoded, debug, bytes_left }
+		},
+	})
+}
